@@ -10,8 +10,11 @@
      error after delivering the input ([rerr]) makes the scanner hand out what it
      has (the partial last line is a token) and then report the error.
    - Extended JSON is a library: [parse] maps a token to the document the library
-     built or to "error" (with the flag: the error's cause is io.EOF, which the
-     select loop treats like the end of the input).
+     built or to "error".  The source goroutine sends a NEW error for a parse
+     failure (errors.Errorf, not a wrapper), so its cause is never io.EOF; the
+     select loop still treats an error whose cause is io.EOF like the end of the
+     input, which only a reader failing with a wrapped io.EOF can now produce
+     ([eofc]).
    - the two select loops are labelled transition systems; which arm fires is an
      event supplied from outside (timers, cancellation, the reader's speed are the
      environment), so "for every timing" is "for every event list".
@@ -37,11 +40,18 @@ Fixpoint drop_cr (l : bytes) : bytes :=
               end
   end.
 
-(* the raw lines of an input: [cur] is the current line, reversed *)
-Fixpoint split_lines (cur : bytes) (inp : bytes) : list bytes :=
+(* the raw lines of an input (what lies between the \n's; a final unterminated
+   piece is a line, nothing follows a final \n) *)
+Fixpoint split_lines (inp : bytes) : list bytes :=
   match inp with
-  | [] => match cur with [] => [] | _ :: _ => [rev cur] end
-  | b :: r => if (b =? lf)%N then rev cur :: split_lines [] r else split_lines (b :: cur) r
+  | [] => []
+  | b :: r =>
+      let ls := split_lines r in
+      if (b =? lf)%N then [] :: ls
+      else match ls with
+           | [] => [[b]]
+           | l :: t => (b :: l) :: t
+           end
   end.
 
 Inductive scan_end := ScanEof | ScanTooLong | ScanReadErr.
@@ -56,15 +66,17 @@ Fixpoint scan_raw (limit : N) (rerr : bool) (raws : list bytes) : list bytes * s
 
 (* the tokens Scan() delivers and how the scan ended (Scanner.Err()) *)
 Definition scan (limit : N) (inp : bytes) (rerr : bool) : list bytes * scan_end :=
-  scan_raw limit rerr (split_lines [] inp).
+  scan_raw limit rerr (split_lines inp).
 
 (* ------------------------------------------------------------------ source goroutine *)
 (* bson.UnmarshalExtJSON(line, false, doc) *)
-Inductive pres := PDoc (d : doc) | PBad (eof : bool).
+Inductive pres := PDoc (d : doc) | PBad.
 
 (* errors that reach the [errs] channel *)
-Inductive srcerr := SParse (eof : bool) | STooLong | SRead.
-Definition src_is_eof (k : srcerr) : bool := match k with SParse e => e | _ => false end.
+(* SRead eofc: the reader's error; eofc: its pkg/errors cause is io.EOF *)
+Inductive srcerr := SParse | STooLong | SRead (eofc : bool).
+(* errors.Cause(err) == io.EOF in the select loop *)
+Definition src_is_eof (k : srcerr) : bool := match k with SRead e => e | _ => false end.
 
 (* what the goroutine puts on its channels, in order: a document on [docs]
    (unbuffered: the goroutine waits until the main loop takes it) or an error on
@@ -73,13 +85,14 @@ Inductive item := IDoc (d : doc) | IErr (k : srcerr).
 
 Section Source.
 Variable parse : bytes -> pres.
+Variable eofc : bool.   (* see SRead *)
 
 Fixpoint script (ls : list bytes) (e : scan_end) : list item :=
   match ls with
-  | [] => match e with ScanEof => [] | ScanTooLong => [IErr STooLong] | ScanReadErr => [IErr SRead] end
+  | [] => match e with ScanEof => [] | ScanTooLong => [IErr STooLong] | ScanReadErr => [IErr (SRead eofc)] end
   | l :: r => match parse l with
               | PDoc d => IDoc d :: script r e
-              | PBad eof => [IErr (SParse eof)]     (* errs <- err; return *)
+              | PBad => [IErr SParse]     (* errs <- errors.Errorf(...); return *)
               end
   end.
 
